@@ -4,7 +4,9 @@ import (
 	"context"
 	"fmt"
 	"io"
+	"io/fs"
 	"os"
+	"path"
 	"path/filepath"
 	"strings"
 	"sync"
@@ -42,11 +44,33 @@ func c18Trees() map[string]c18Tree {
 	t["many-tiny-16"] = c18Tree{"many-tiny-16", many[:12].Clone(), nil}
 	t["huge-literal"] = c18Tree{"huge-literal", tm.Tree{tm.File("big", genData(famHash, 300*1024, 4), 0o644, tm.Past)}, nil}
 	t["literal-over-basis"] = c18Tree{"literal-over-basis", tm.Tree{tm.File("big", genData(famHash, 700*1024, 8), 0o644, tm.Past)}, tm.Tree{tm.File("big", genData(famHash, 1000, 9), 0o644, tm.Past-9)}}
+	// a source whose files vanish between listing and sending: 24 files in a row cannot be opened when their
+	// data is requested (the module's fs.FS refuses "gone-*"), the destination holds older copies of everything
+	var vs, vd tm.Tree
+	for i := 0; i < 24; i++ {
+		vs = append(vs, tm.File(fmt.Sprintf("gone-%02d", i), genData(famHash, 800, uint32(100+i)), 0o644, tm.Past))
+		vd = append(vd, tm.File(fmt.Sprintf("gone-%02d", i), genData(famHash, 800, uint32(200+i)), 0o644, tm.Past-9))
+	}
+	for _, n := range []string{"a-stays", "zz-stays"} {
+		vs = append(vs, tm.File(n, genData(famHash, 900, 7), 0o644, tm.Past))
+		vd = append(vd, tm.File(n, genData(famHash, 900, 8), 0o644, tm.Past-9))
+	}
+	t["vanishing"] = c18Tree{"vanishing", vs, vd}
 	basis := genData(famHash, 1<<20, 5)
 	edited := append([]byte{}, basis...)
 	copy(edited[500000:], genData(famHash, 3000, 6))
 	t["huge-sum-list"] = c18Tree{"huge-sum-list", tm.Tree{tm.File("big", edited, 0o644, tm.Past)}, tm.Tree{tm.File("big", basis, 0o644, tm.Past-9)}}
 	return t
+}
+
+// c18VanishFS lists everything but cannot open files called gone-*: they have vanished since the listing.
+type c18VanishFS struct{ fs.FS }
+
+func (v c18VanishFS) Open(name string) (fs.File, error) {
+	if strings.HasPrefix(path.Base(name), "gone-") {
+		return nil, &fs.PathError{Op: "open", Path: name, Err: fs.ErrNotExist}
+	}
+	return v.FS.Open(name)
 }
 
 // c18Start builds the Start function of a single-session scenario.
@@ -91,6 +115,9 @@ func c18Start(arr string, tree c18Tree, args []string) func(w *sched.World) func
 				})
 			case drive.DaemonPull, drive.DaemonPush:
 				mod := rsyncd.Module{Name: "m", Path: filepath.Join(dir, "src")}
+				if tree.name == "vanishing" {
+					mod = rsyncd.Module{Name: "m", FS: c18VanishFS{os.DirFS(filepath.Join(dir, "src"))}}
+				}
 				remote, paths := "m/", []string{dst}
 				if arr == drive.DaemonPush {
 					mod = rsyncd.Module{Name: "m", Path: dst, Writable: true}
@@ -132,6 +159,13 @@ func c18Args(opts string) []string {
 	switch opts {
 	case "delete-excl":
 		args := []string{"-rt", "--delete"}
+		for k := 0; k < 40; k++ {
+			args = append(args, fmt.Sprintf("--exclude=no-such-name-%02d", k))
+		}
+		return args
+	case "wild-excl":
+		// a rule the implementation refuses (wildcard) followed by more rules: the refusal arrives while the client is still sending
+		args := []string{"-rt", "--exclude=*.o"}
 		for k := 0; k < 40; k++ {
 			args = append(args, fmt.Sprintf("--exclude=no-such-name-%02d", k))
 		}
@@ -274,6 +308,20 @@ func c18BuildSingle(tier string) core.Source {
 					cases = append(cases, c18Scenario{arr: arr, tree: "tiny", c2s: a, s2c: b, bound: 1, chunking: false, maxExec: 20000, opts: opts})
 				}
 			}
+		}
+	}
+	// a refused rule list: the server answers with an error while the client may still be writing rules
+	for _, arr := range []string{drive.LibPull, drive.DaemonPull} {
+		for _, a := range []int{0, 7, sched.Inf} {
+			for _, b := range []int{0, 7, sched.Inf} {
+				cases = append(cases, c18Scenario{arr: arr, tree: "tiny", c2s: a, s2c: b, bound: 1, chunking: false, maxExec: 20000, opts: "wild-excl", expectErr: true})
+			}
+		}
+	}
+	// a sending side that has to skip a long run of files (vanished since the listing): the session must end
+	for _, a := range []int{0, 7, sched.Inf} {
+		for _, b := range []int{0, 7, sched.Inf} {
+			cases = append(cases, c18Scenario{arr: drive.DaemonPull, tree: "vanishing", c2s: a, s2c: b, bound: 1, chunking: false, maxExec: 20000})
 		}
 	}
 	// a receiving side that fails mid-session (a name too long for the temp file):
@@ -740,7 +788,7 @@ func init() {
 	core.Register(&core.Prop{
 		ID:    "C18",
 		Level: "model_checking",
-		Rule: "single: every order in which pending transport operations of client and server complete, with <=1 (thorough <=2) deviations (preemptions; 1-byte and half transfers) from the run-to-completion schedule, explored by stateless DFS under a synctest-based controlled scheduler, for arrangements {lib-pull, lib-push, daemon-pull, daemon-push} x capacities {0,1,7,65536,inf}^2 x trees {tiny, many-tiny; huge-literal and huge-sum-list at capacities {0,4096,65536,inf}^2}, plus the option sets {-rt --delete with 40 exclude rules, -a, -rtc} at capacities {0,inf}^2 (thorough {0,7,inf}^2); two: two sessions on one Server (pull||pull, pull||upload, upload||upload to distinct and to the identical target) interleaved at operation granularity; local: the in-process-server local copy inside a bubble (deadlock = every goroutine durably blocked); race: free-running concurrent pulls and uploads on one Server under the race detector with GOMAXPROCS in {1,2,4,16}; aborted: rounds of a 24 MiB download dropped by the peer mid-file followed at once by 4 concurrent ordinary downloads on the same Server, under the race detector. " +
+		Rule: "single: every order in which pending transport operations of client and server complete, with <=1 (thorough <=2) deviations (preemptions; 1-byte and half transfers) from the run-to-completion schedule, explored by stateless DFS under a synctest-based controlled scheduler, for arrangements {lib-pull, lib-push, daemon-pull, daemon-push} x capacities {0,1,7,65536,inf}^2 x trees {tiny, many-tiny; huge-literal and huge-sum-list at capacities {0,4096,65536,inf}^2}, a source whose files vanish after the listing (24 in a row), plus the option sets {-rt --delete with 40 exclude rules, -a, -rtc} at capacities {0,inf}^2 (thorough {0,7,inf}^2); two: two sessions on one Server (pull||pull, pull||upload, upload||upload to distinct and to the identical target) interleaved at operation granularity; local: the in-process-server local copy inside a bubble (deadlock = every goroutine durably blocked); race: free-running concurrent pulls and uploads on one Server under the race detector with GOMAXPROCS in {1,2,4,16}; aborted: rounds of a 24 MiB download dropped by the peer mid-file followed at once by 4 concurrent ordinary downloads on the same Server, under the race detector. " +
 			"oracle: every execution finishes (structural deadlock detection, no timeouts) and its outcome (errors, destination snapshot, no leftover temp files) equals the deviation-free outcome / the solo outcome. states = scheduling points visited, transitions = transport operations executed",
 		Assum: []string{"goroutines blocked in file-system syscalls are not scheduling points (synctest.Wait waits for them)", "the cooperative scheduler hides data races; they are looked for in the separate free-running -race part"},
 		Parts: func(tier string) []core.Part {
